@@ -94,6 +94,7 @@ def zx_circuits(draw, tier, max_boxes=None):
                 "mixed": False}, draw(st.integers(0, len(scan)))
         layers.append([b, off])
         scan = scan[:off] + specs.bcod(b) + scan[off + len(specs.bdom(b)):]
+    qspec.jitter(draw, layers)
     return {"cls": "circuit", "dom": [["qubit", 0]] * n, "layers": layers}
 
 
